@@ -601,6 +601,23 @@ def run_check(plugin_mod, tier, replay=None):
                         'also_broken': broken, 'other_failures': len(unknown) - 1})
         print('VIOLATION property=%s replay=%s' % (prop, rp))
         return 1
+    # a repaired finding that no generated case reaches keeps its standalone script as a regression test: exit 1 = the defect
+    # is back (a fixed entry suppresses nothing)
+    for k in findings:
+        if str(k.get('status', '')).startswith('fixed') and k.get('regression_script'):
+            try:
+                r = subprocess.run(['/venv/bin/python', os.path.join(ROOT, k['regression_script'])], env=impl_env(), cwd=ROOT,
+                                   stdout=subprocess.PIPE, stderr=subprocess.STDOUT, text=True, timeout=120)
+                rc, outtxt = r.returncode, r.stdout[-2000:]
+            except subprocess.TimeoutExpired:
+                rc, outtxt = 1, 'timed out'
+            if rc == 1:
+                rp = os.path.join(ROOT, 'replays', '%s_%s_%d_regression.json' % (prop, tier, seed))
+                write_json(rp, {'property': prop, 'kind': 'input', 'case': {'script': k['regression_script']}, 'observed': outtxt,
+                                'failure': {'what': 'the repaired defect %s is back: %s' % (k['id'], k['what'])}, 'seed': seed,
+                                'plugin': plugin_mod, 'also_broken': broken})
+                print('VIOLATION property=%s replay=%s' % (prop, rp))
+                return 1
     if broken:
         rp = os.path.join(ROOT, 'replays', '%s_%s_%d_unchecked.json' % (prop, tier, seed))
         write_json(rp, {'property': prop, 'kind': 'unchecked-obligation', 'broken': broken, 'seed': seed,
